@@ -499,13 +499,19 @@ func (r *flushRun) attempt(sched []string, attemptNo int, random bool, rng *rand
 	}
 	if random {
 		// random completion order and failures until MakeRoot returns
+		idleSince := time.Now()
 		for !poll() {
 			settle(&r.nev)
 			n := r.st.nInflight()
 			if n == 0 {
+				// nothing in flight and no return: either the walker is between two nodes, or MakeRoot is stuck (then: "hang" below)
+				if time.Since(idleSince) > 3*time.Second {
+					break
+				}
 				time.Sleep(50 * time.Microsecond)
 				continue
 			}
+			idleSince = time.Now()
 			if r.sc.kind == "sweep" && attemptNo == 1 {
 				r.ncomp++
 				r.st.complete(0, r.ncomp == r.sc.failAt)
